@@ -3,12 +3,12 @@ NEXT Next
 CONSTRAINT Emit
 CONSTANTS
   Mode = "rjunction"
-  Stages = {"Inc", "Dbl", "Even", "Odd", "Err3", "Dup", "Rep", "Split", "Sum", "Dedup", "BSum2", "BFlat2", "Buf1", "Buf2", "OPar2", "Par2"}
+  Stages = {"Inc", "Dbl", "Even", "Odd", "Err3", "Dup", "Rep", "Split", "Sum", "Dedup", "BSum2", "BFlat2", "Buf1", "Buf2", "OPar2", "Par2", "FMC", "FMM2"}
   InputsKind = "q"
   MaxDepth = 0
   SubStages = {}
   PostStages = {}
-  NRandom = 40000
+  NRandom = 18000
   RDepth = 2
   RLen = 5
   RVals = {1, 2, 3, 4}
